@@ -135,7 +135,12 @@ func ruleIExact(c *engine.Context) *report.Rule {
 		}
 	}
 	if idxT == nil {
-		r.InfraFail("anchor unresolved: index operand type (int + omitted flag)")
+		// the encoding of a bound (number + "was omitted" flag) is what the conformity argument is
+		// about: without it nothing can be concluded — reported as an open obligation, not as an
+		// infrastructure problem
+		r.Instances++
+		r.Oblige(false)
+		r.Undischarged("slice operands: number and omitted flag", "-", "no subscript type carries a number together with a separate `omitted` flag: an omitted bound is then encoded in the number itself (or not at all), and a written number can collide with that encoding; conformity of the slice bounds with Python's slicing cannot be established")
 		return r
 	}
 	found := 0
@@ -293,7 +298,8 @@ func ruleIExact(c *engine.Context) *report.Rule {
 		}
 	}
 	if found < 2 {
-		r.InfraFail("anchor unresolved: expected two slice subscript types (positive and negative step), found %d", found)
+		r.Oblige(false)
+		r.Undischarged("slice subscript types", "-", "expected two slice subscript types (positive and negative step) built from three index operands, found %d", found)
 	}
 	// the single index: [value] for 0 <= value < len, [value+len] for -len <= value < 0, nothing otherwise
 	if fn := methodOf(p, idxT, p.Roles.IndexesMethod); fn != nil && fn.Blocks != nil {
